@@ -28,7 +28,8 @@ def check_impl(line, res):
     t = line.split(); op, a = t[0], t[1:]
     if op != 'hash': return None
     alg, m, L = a[0], unhx(a[1]), unoi(a[2])
-    bad = lambda why: 'hash %s |M|=%d L=%s: %s' % (alg, len(m), L, why)
+    L0 = L
+    bad = lambda why: 'hash %s |M|=%d L=%s: %s' % (alg, len(m), L0, why)
     if L is not None and L > 8 * len(m):
         return None if res == 'ERR' else bad('a bit length beyond the data must be refused')
     if L == 0 and len(m) > 0: return None
